@@ -15,7 +15,7 @@ def runLine (line : String) : String :=
       match toScript sx with
       | none => "bad-case\t-"
       | some script =>
-        let (s, r) := runScript 100000 {} script
+        let (s, r) := runShell 100000 {} script
         match r with
         | .outOfFuel => s!"FUEL trace={showTrace s.trace}\t-"
         | _ => s!"trace={showTrace s.trace} status={s.status}\t-"
